@@ -1,6 +1,6 @@
 (* C11 — Wait returns only when ready; a timed-out wait leaves the futures intact.
-   Statements only; proofs are in proofs/WaitEvProofs.v (invariant, producers), proofs/WaitEvProofsW.v (waiter) and
-   proofs/WaitEvProofsC.v (consequences).
+   Statements only; proofs are in proofs/WaitEvProofs.v (invariant), WaitEvProofsP.v (producers' events), WaitEvProofsW.v
+   (waiter's events) and WaitEvProofsC.v (invariant theorem, consequences).
 
    [n_] is the number of futures — any n >= 1; [one_] selects the single-future fast path (OneCounter), which exists
    only for n = 1 ([good_cfg]); [timed_] distinguishes WaitFor/WaitUntil from Wait; [tr] ranges over every sequence of
